@@ -111,6 +111,15 @@ def fam_sill_bytes(q):
     return HDR + GT + "table(feature)\n" + feats + "endtable;\ntable(language)\n" + langs + "endtable;\ntable(sub) cA > cB; endtable;\n", ["NOENGINE"], None, None
 
 
+def fam_feature_hidden_id(q):
+    """a feature whose main id is small and whose hidden alternate id is q: ids above 0xFFFF need the 32-bit id field of
+    Feat version 2"""
+    feat = ('table(feature) f1 { id = 1001; id.hidden = %d; name.1033 = string("F"); settings { a { value = 0; name.1033 = string("a"); } '
+            'b { value = 1; name.1033 = string("b"); } } default = a; } endtable;\n' % q)
+    return HDR + GT + feat + "table(sub) if (f1 == b) cA > cB; endif; endtable;\n", [], \
+        lambda s, g: sorted(ft["id"] for ft in s["_feat"]["feats"] if ft["id"] != 1), sorted([1001, q])
+
+
 def fam_features(q):
     feats = "".join('f%d { id = %d; name.1033 = string("F%d"); settings { a%d { value = 0; name.1033 = string("x"); } } default = a%d; }\n' % (i, 100 + i, i, i, i) for i in range(q))
     return HDR + GT + "table(feature)\n" + feats + "endtable;\ntable(sub) cA > cB; endtable;\n", [], None, q
@@ -206,6 +215,7 @@ FAMILIES = [
     ("feature_setting_value", fam_feature_setting_value, [65534, 65535, 65536, 70000], 120),
     ("feature_setting_value_negative", lambda q: fam_feature_setting_value(-q), [32767, 32768, 32769, 70000], 120),
     ("sill_table_bytes", fam_sill_bytes, [100, 133, 135, 140, 260], 120),
+    ("feature_hidden_id", fam_feature_hidden_id, [65534, 65535, 65536, 0x73776170], 120),
     ("features", fam_features, [62, 63, 64, 65, 200], 120),
     ("user_attr_index", fam_userattr, [15, 16, 17, 64], 120),
     ("glyph_attrs", fam_gattrs, [250, 252, 253, 256, 300], 120),
